@@ -17,6 +17,8 @@ THOROUGH_SHARDS = {"C01": 8, "C02": 8, "C03": 8, "C04": 8, "C05": 6, "C06": 8, "
                    "C10": 6, "C11": 8, "C12": 4, "C13": 8, "C14": 1, "C15": 8, "C16": 6, "C17": 6, "C18": 4,
                    "C19": 8, "C20": 4}
 QUICK_SHARDS = {}
+# kernel-heavy monitors that get a NUMBA_BOUNDSCHECK=1 pass in the thorough tier (C06 runs its own sanitizer sub-process)
+SANITIZE = {"C02", "C03", "C10", "C11", "C14", "C16", "C17", "C19", "C08", "C09"}
 WATCHDOG_S = {"quick": 1500, "thorough": 3 * 3600}
 
 
@@ -32,7 +34,10 @@ def run_one(prop, tier, seed, shard):
     except Exception as e:  # harness failure -> inconclusive, never "held"
         import traceback
         traceback.print_exc()
-        ctx.mark_inconclusive(f"harness exception {type(e).__name__}: {e}")
+        if os.environ.get("HMON_SANITIZER_PASS") == "1" and isinstance(e, IndexError):
+            ctx.violation("SAN:no out-of-bounds array access in compiled kernels (NUMBA_BOUNDSCHECK=1)", {"error": str(e)[:300]}, None)
+        else:
+            ctx.mark_inconclusive(f"harness exception {type(e).__name__}: {e}")
     return ctx, getattr(mod, "LEVEL", None)
 
 
@@ -70,7 +75,7 @@ def main(argv=None):
 
     nshards = a.shards or (THOROUGH_SHARDS.get(prop, 1) if tier == "thorough" else QUICK_SHARDS.get(prop, 1))
     nshards = max(1, min(nshards, os.cpu_count() or 1))
-    if nshards == 1:
+    if nshards == 1 and not (tier == "thorough" and prop in SANITIZE):
         ctx, level = run_one(prop, tier, seed, (0, 1))
         return finish(ctx, level)
 
@@ -86,6 +91,18 @@ def main(argv=None):
         p = subprocess.Popen([sys.executable, "-m", "hmon.run", prop, tier, "--shard", f"{i}/{nshards}", "--out", out],
                              env=env, cwd=tmp)
         procs.append((p, out))
+    # sanitizer pass (thorough tier): the quick-size workload once more with numba's array-bounds checking on; an IndexError raised
+    # from library code there is a violation (silent out-of-bounds reads return garbage without the flag)
+    san = None
+    if tier == "thorough" and prop in SANITIZE:
+        out = os.path.join(tmp, "sanitizer.json")
+        env = dict(os.environ)
+        env["NUMBA_CACHE_DIR"] = os.path.join(tmp, "nbcache_san")
+        env["NUMBA_BOUNDSCHECK"] = "1"
+        env["HMON_SANITIZER_PASS"] = "1"
+        env["VERIF_SEED"] = str(seed + 7919)
+        env["NUMBA_NUM_THREADS"] = "2"
+        san = (subprocess.Popen([sys.executable, "-m", "hmon.run", prop, "quick", "--shard", "0/1", "--out", out], env=env, cwd=tmp), out)
     master = Ctx(prop, tier, seed, (0, nshards))
     master.t0 = t0
     deadline = t0 + WATCHDOG_S.get(tier, 3600)
@@ -101,6 +118,23 @@ def main(argv=None):
             continue
         with open(out) as f:
             master.merge(json.load(f))
+    if san is not None:
+        p, out = san
+        try:
+            p.wait(timeout=max(1, deadline - time.time()))
+            if p.returncode == 0 and os.path.exists(out):
+                with open(out) as f:
+                    d = json.load(f)
+                d["requirements"] = {}          # the sanitizer pass adds observations, not obligations
+                d["notes"] = {"n_sanitizer_cases": int(sum(d["cases"].values()))}
+                d["cases"] = {"sanitizer:" + k: v for k, v in d["cases"].items()}
+                master.merge(d)
+                master.notes["sanitizer_pass"] = "NUMBA_BOUNDSCHECK=1, quick-size workload, seed+7919"
+            else:
+                master.mark_inconclusive(f"sanitizer pass exited with status {p.returncode}")
+        except subprocess.TimeoutExpired:
+            p.kill()
+            master.mark_inconclusive("watchdog: sanitizer pass exceeded wall-clock budget")
     import shutil
     shutil.rmtree(tmp, ignore_errors=True)
     return finish(master, None)
